@@ -465,8 +465,8 @@ def wl_inplace(ctx, idx, rng):
     p = make_phase(rng, dec, fk, shape, imaginary)
     q = make_phase(rng, gen.pick(rng, [0, 1, 3]), "uniform", shape, imaginary)
     form = ["imul2", "imul_j", "idiv_j", "iadd", "isub", "abs_out_self", "neg_out_other", "mul_out_other", "idiv3",
-            "imod_q", "imod_phase", "mod_out_divisor"][idx % 12]
-    if form in ("imod_q", "imod_phase", "mod_out_divisor"):
+            "imod_q", "imod_phase", "mod_out_divisor", "mod_out_view"][idx % 13]
+    if form in ("imod_q", "imod_phase", "mod_out_divisor", "mod_out_view"):
         # remainders are defined for real phases; the divisor is a few cycles so that the quotient is exact in a double
         imaginary = False
         p = make_phase(rng, dec if dec in (0, 1, 3, 6) else 3, fk, shape, False)
@@ -494,8 +494,13 @@ def wl_inplace(ctx, idx, rng):
         if form == "idiv3":
             p /= 3.0
             return p, [v / 3 for v in vals0], im0
-        if form in ("imod_q", "imod_phase", "mod_out_divisor"):
+        if form in ("imod_q", "imod_phase", "mod_out_divisor", "mod_out_view"):
             want_r = [a - math.floor(a / b) * b for a, b in zip(vals0, qv)]
+            if form == "mod_out_view":
+                # the target is another view object onto the dividend's own buffer (a block of a larger table)
+                view = p[...] if not shape else p.reshape(-1).reshape(shape)
+                r = np.remainder(p, q, out=view)
+                return r, want_r, False
             if form == "imod_phase":
                 p %= q
                 return p, want_r, False
